@@ -293,6 +293,76 @@ pub async fn op_cross_party(sc: Value) -> Value {
                 }
             }
         }
+        // ---- late refusal: genuine newer metadata for A that also delegates a role "N" whose metadata is not handed over. The update must be
+        // refused (N cannot be fetched) and must leave the editor as it was: the owner signs on, and the written repository loads with A as
+        // before and every role delegated by A still carrying its metadata.
+        {
+            cases += 1;
+            let built = build_repo(&spec).await;
+            let src = tempfile::tempdir().unwrap();
+            built.write_to(src.path());
+            let md = src.path().join("metadata");
+            let repo = RepositoryLoader::new(&built.root, dir_url(&md), dir_url(&src.path().join("targets"))).load().await.unwrap();
+            let cur: &Targets = &repo.targets().signed.delegations.as_ref().unwrap().roles.iter().find(|r| r.name == "A").unwrap().targets.as_ref().unwrap().signed;
+            let before_sub: Vec<(String, bool)> = cur.delegations.as_ref().map(|d| d.roles.iter().map(|r| (r.name.clone(), r.targets.is_some())).collect()).unwrap_or_default();
+            let before_version = cur.version.get();
+            let mut inc = cur.clone();
+            inc.version = nz(before_version + 1);
+            let nkey = kp();
+            let nk = nkey.tuf_key();
+            let nid = kid(&nkey);
+            let have_deleg = inc.delegations.is_some();
+            if have_deleg {
+                let d = inc.delegations.as_mut().unwrap();
+                for r in d.roles.iter_mut() {
+                    r.targets = None;
+                }
+                d.keys.insert(nid.clone(), nk);
+                d.roles.push(DelegatedRole { name: "N".into(), keyids: vec![nid], threshold: nz(1), paths: PathSet::Paths(vec![PathPattern::new("a/n/*").unwrap()]), terminating: false, targets: None });
+                let signers: Vec<Ed25519KeyPair> = built.role_keys[1].iter().take(2).map(|k| k.pair()).collect();
+                let refs: Vec<&Ed25519KeyPair> = signers.iter().collect();
+                let doc = sign(inc.clone(), &refs).await;
+                let incoming = tempfile::tempdir().unwrap();
+                std::fs::write(incoming.path().join("A.json"), ser(&doc)).unwrap();
+                let mut ed = RepositoryEditor::from_repo(src.path().join("root.json"), repo).await.unwrap();
+                // no pending targets editor: the owner has signed the role being edited back into the tree
+                ed.targets_version(nz(spec.roles[0].version + 1)).unwrap().targets_expires(far()).unwrap();
+                let pre = ed.sign_targets_editor(&built.all_keys()).await.map(|_| ());
+                let res = ed.update_delegated_targets("A", dir_url(incoming.path()).as_str()).await.map(|_| ());
+                let desc = format!("{label}: incoming A metadata genuine and newer, delegating a new role N whose metadata is not handed over");
+                if let Err(e) = pre {
+                    dev.push(json!({"class": "cross-party-sign", "what": format!("{desc}: sign_targets_editor before the hand-over failed: {e}")}));
+                } else if res.is_ok() {
+                    dev.push(json!({"class": "cross-party-accepted", "what": format!("{desc} was incorporated although N.json cannot be fetched")}));
+                } else {
+                    ed.snapshot_version(nz(spec.snapshot_version + 1)).snapshot_expires(far());
+                    ed.timestamp_version(nz(spec.timestamp_version + 1)).timestamp_expires(far());
+                    match ed.sign(&built.all_keys()).await {
+                        Err(e) => dev.push(json!({"class": "cross-party-refused-changed", "what": format!("{desc}: after the refused hand-over the editor no longer signs: {e}")})),
+                        Ok(signed) => {
+                            let out = tempfile::tempdir().unwrap();
+                            let omd = out.path().join("metadata");
+                            signed.write(&omd).await.unwrap();
+                            for (n, b) in &built.meta {
+                                if n.ends_with("root.json") {
+                                    std::fs::write(omd.join(n), b).unwrap();
+                                }
+                            }
+                            match RepositoryLoader::new(&built.root, dir_url(&omd), dir_url(&src.path().join("targets"))).load().await {
+                                Err(e) => dev.push(json!({"class": "cross-party-refused-changed", "what": format!("{desc}: the hand-over was refused, the owner signed on, and the written repository does not load: {e}")})),
+                                Ok(r2) => {
+                                    let a2 = &r2.targets().signed.delegations.as_ref().unwrap().roles.iter().find(|r| r.name == "A").unwrap().targets.as_ref().unwrap().signed;
+                                    let after_sub: Vec<(String, bool)> = a2.delegations.as_ref().map(|d| d.roles.iter().map(|r| (r.name.clone(), r.targets.is_some())).collect()).unwrap_or_default();
+                                    if a2.version.get() != before_version || after_sub != before_sub {
+                                        dev.push(json!({"class": "cross-party-refused-changed", "what": format!("{desc}: the hand-over was refused but role A changed: version {} -> {}, delegated roles (name, loaded) {:?} -> {:?}", before_version, a2.version, before_sub, after_sub)}));
+                                    }
+                                }
+                            }
+                        }
+                    }
+                }
+            }
+        }
     }
     dev.truncate(10);
     json!({"cases": cases, "deviations": dev})
